@@ -23,6 +23,15 @@ type valErr struct{ msg string }
 
 func (e valErr) Error() string { return e.msg }
 
+// wrappingErr is a constructor's own error that wraps a cause.
+type wrappingErr struct {
+	op    string
+	cause error
+}
+
+func (e *wrappingErr) Error() string { return e.op + ": " + e.cause.Error() }
+func (e *wrappingErr) Unwrap() error { return e.cause }
+
 type ptrErr struct{ msg string }
 
 func (e *ptrErr) Error() string { return e.msg }
@@ -575,7 +584,12 @@ func TestC15Faults(t *testing.T) {
 		inv := invs[k]
 		reg := x.M.Regs[inv.Reg]
 		var flt kit.Fault
-		injected := fmt.Errorf("injected-error-%d", k)
+		// the constructor's own error may itself wrap something (a typed error around a cause):
+		// it is the constructor's error that has to stay reachable, not only the bottom of its chain
+		var injected error = fmt.Errorf("injected-error-%d", k)
+		if rapid.Bool().Draw(rt, "wrappingError") {
+			injected = &wrappingErr{op: fmt.Sprintf("injected-error-%d", k), cause: fmt.Errorf("root cause: %w", context.DeadlineExceeded)}
+		}
 		switch fk := rapid.IntRange(0, 2).Draw(rt, "faultkind"); {
 		case fk == 0 && reg.HasErr:
 			flt = kit.Fault{Kind: kit.FaultError, Err: injected}
